@@ -230,7 +230,7 @@ struct Reg {
     {
       System s; s.name = "fans_sa_transient_free_shear"; s.prop = "C05"; s.dim = 2;
       s.base = [](Params& P) { P.m["p_0"] = 40; P.m["mu"] = dy(1100); P.m["R"] = dy(1741); P.m["c_v1"] = 12; P.m["Gamma"] = dy(1434); };
-      s.points = [](int tier) { return grid({0, 1, 3}, tier ? 3 : 2, GENERIC_VALS); };
+      s.points = [](int tier) { std::vector<Pt> pts = grid({0, 1, 3}, tier ? 3 : 2, GENERIC_VALS); pts.push_back(far_point()); return pts; };
       s.reference = fs_ref; s.max_dev_quick = 1; s.max_dev_thorough = 2; s.pointwise_admissibility = true;
       e1_systems().push_back(s);
     }
